@@ -24,7 +24,7 @@ META = {
     "require": {t: ["mode:serial", "mode:real", "mode:controlled", "plan:empty", "plan:singleton", "plan:multi",
                     "k=1", "k>=12", "cube:ccube", "cube:xcube", "followup:compared", "raised:identity_checked",
                     "interrupt_class:RuntimeError", "interrupt_class:TimeoutError", "interrupt_class:KeyError",
-                    "k>1024", "callback:class_level"]
+                    "k>1024", "callback:class_level", "callback:callable_object_empty_container", "callback:bound_method"]
                 for t in ("quick", "thorough")},
     "exhaustive": {t: "every singleton fault plan (every cancellation point) of every generated cube, in each mode"
                    for t in ("quick", "thorough")},
@@ -116,6 +116,31 @@ def cases(ctx):
         yield c
 
 
+CALLBACK_FORMS = ["function", "bound_method", "function", "class_level", "callable_object_empty_container", "partial",
+                  "function", "class_level"]
+
+
+def _call(fn):
+    return fn()
+
+
+class _Holder:
+    def __init__(self, fn):
+        self.fn = fn
+
+    def poll(self):
+        return self.fn()
+
+
+class _CallableList(list):
+    def __init__(self, fn):
+        super().__init__()
+        self.fn = fn
+
+    def __call__(self):
+        return self.fn()
+
+
 def run_plan(ctx, case, mode, plan, seed, fresh_ref, feat):
     """Execute one fault plan; returns False when a violation was reported."""
     k = case["subcubes"]
@@ -139,11 +164,21 @@ def run_plan(ctx, case, mode, plan, seed, fresh_ref, feat):
                 raised.append(e)
             raise e
 
-    if seed % 4 == 3:
+    form = CALLBACK_FORMS[seed % len(CALLBACK_FORMS)]
+    ctx.count("callback:" + form)
+    if form == "class_level":
         # the callback is supplied at class level (a subclass), not on the instance
         sub = type("Sub" + type(cube).__name__, (type(cube),), {"check_interrupt": staticmethod(callback)})
         cube.__class__ = sub
-        ctx.count("callback:class_level")
+    elif form == "bound_method":
+        cube.check_interrupt = _Holder(callback).poll
+    elif form == "partial":
+        import functools
+
+        cube.check_interrupt = functools.partial(_call, callback)
+    elif form == "callable_object_empty_container":
+        # a callable object that is also an (empty, hence falsy) container - e.g. a recording list with __call__
+        cube.check_interrupt = _CallableList(callback)
     else:
         cube.check_interrupt = callback
     base_threads = threading.active_count()
